@@ -126,6 +126,8 @@ impl HuffScen {
             match prop {
                 1 => matches!(o, "just-pushed-item-differs" | "just-pushed-differs" | "push-refused-inside-statistics" | "refused-representable-input" | "merge-panicked"),
                 2 => matches!(o, "earlier-item-differs"),
+                // C14: region-to-region pushes of read items must be accepted and read back equal
+                14 => matches!(o, "just-pushed-item-differs" | "push-refused-inside-statistics" | "merge-panicked"),
                 // C04 is about the strings handed out: read-back oracles only
                 4 => matches!(o, "just-pushed-differs" | "earlier-item-differs"),
                 _ => true,
@@ -493,7 +495,8 @@ impl Scenario for HuffScen {
         let item_max = *rng.pick(&[3usize, 8, 20, 40]);
         let mut trained = false;
         for i in 0..n {
-            let c = if i == 0 { 0 } else if !trained { rng.below(3) } else { rng.weighted(&[1, 60, 8, 3, 3, 6]) };
+            let wcopy = if self.prop == 14 { 40 } else { 6 };
+            let c = if i == 0 { 0 } else if !trained { rng.below(3) } else { rng.weighted(&[1, 60, if self.prop == 14 { 16 } else { 8 }, 3, 3, wcopy]) };
             let t = rng.below(8);
             match c {
                 0 => {
